@@ -268,6 +268,11 @@ func c09Run(raw json.RawMessage) harn.Result {
 				}
 				sa, _ := a.GetCurSeed()
 				sb, _ := b.GetCurSeed()
+				// (a body compiled lazily after the restore costs an instruction or two more than its precompiled original: tolerated)
+				if d := oa.NumOp - ob.NumOp; (d > 20 || d < -20) && (oa.Err == "") && (ob.Err == "") {
+					viol("C09:restored-vm-counts-differently", fmt.Sprintf("snapshot after %q, then %q: the original VM counts %d operations, the restored one %d (the same work must cost the same budget)", c.Stmts[:split], s, oa.NumOp, ob.NumOp))
+					break
+				}
 				same := (oa.Err == "") == (ob.Err == "") && oa.Ret == ob.Ret && (oa.Detail == ob.Detail || sameModuloDictOrder(oa.Detail, ob.Detail)) && bytes.Equal(sa, sb) && drv.CanonAttrs(a.Attrs) == drv.CanonAttrs(b.Attrs)
 				if !same {
 					sig := "C09:restored-vm-differs"
